@@ -44,7 +44,7 @@ def run_job(arg):
     d = common.scratch_dir("c03")
     path = os.path.join(d, "job.scm")
     common.write_file(path, HEADER + gen_core.PRELUDE + "".join(case_text(i, b) for i, _, b in progs))
-    r = common.evalbatch(variant, [path], timeout=600, cwd=d)
+    r = common.evalbatch(variant, [path], timeout=600, cwd=d, env={"VERIF_BUDGET": "20000000"})
     got = {}
     # R7RS leaves these values unspecified; the implementation has two distinct ones
     for l in r.out.replace("#<undef>", "#<unspecified>").replace("#<void>", "#<unspecified>").split("\n"):
